@@ -74,10 +74,23 @@ func run(t *rapid.T, cfg config, leg string) {
 	e := engine.New(s, gen.Keys, rec)
 	n := rapid.IntRange(1, 40).Draw(t, "steps")
 	conf := map[string]any{"policy": cfg.Policy, "sample": cfg.Sample}
+	var justExpired []string // keys whose deadline the last clock advance passed and which nothing has touched since
 	for i := 0; i < n; i++ {
 		op := gen.ExpiryCmd(t, e.M, gen.Keys, cfg.Policy != "noeviction")
+		if len(justExpired) > 0 && op.Advance == 0 && rapid.IntRange(0, 2).Draw(t, "overwrite") > 0 {
+			// a write that does not read its destination first, onto a key that has expired but is still stored
+			op = gen.ExpiryOp{Cmd: gen.OverwriteCmd(t, e.M, rapid.SampledFrom(justExpired).Draw(t, "dest"), gen.Keys)}
+			rec.Class("overwrite of an expired, untouched key")
+		}
+		justExpired = nil
 		switch {
 		case op.Advance != 0:
+			now := e.M.NowMs()
+			for _, k := range gen.Keys {
+				if en := e.M.Peek(e.M.Cur, k); en != nil && en.Deadline > now && en.Deadline < now+op.Advance {
+					justExpired = append(justExpired, k)
+				}
+			}
 			e.Advance(op.Advance)
 			rec.Class("advance")
 		case op.Tick:
